@@ -522,7 +522,7 @@ pub fn worker(ctx: &mut Ctx) {
     }
     merged.add_dictionary(Arc::new(user));
     let cur: Vec<(Arc<dyn Dictionary>, &str)> = vec![(curated_m.clone(), "mutable"), (curated_f.clone(), "fst"), (Arc::new(merged), "merged[fst,user]")];
-    let n = ctx.share(6_000, 400_000);
+    let n = ctx.share(15_000, 400_000);
     let mut rng = ctx.rng("c15-curated");
     let letters: Vec<char> = "abcdefghijklmnopqrstuvwxyz'".chars().collect();
     for k in 0..n {
